@@ -507,6 +507,77 @@ func genCensorTable() {
 				fall = render(s)
 			}
 		}
+		// dispatch structure: ONE loop over acraCensor.handlers, in configuration order, and nothing outside that loop
+		// looks at the kind of a handler (no pre-pass over a handler kind, no reordering)
+		handlerLoops := 0
+		var kindTestsOutside []string
+		loopOrder := []string{}
+		ast.Inspect(fd.Body, func(n ast.Node) bool {
+			switch x := n.(type) {
+			case *ast.RangeStmt:
+				if render(x.X) == "acraCensor.handlers" {
+					handlerLoops++
+					// `for _, handler := range acraCensor.handlers`: ascending index order, every element
+					k, v := "_", "_"
+					if x.Key != nil {
+						k = render(x.Key)
+					}
+					if x.Value != nil {
+						v = render(x.Value)
+					}
+					loopOrder = append(loopOrder, "range:"+k+","+v)
+				}
+			case *ast.ForStmt:
+				if strings.Contains(render(x), "acraCensor.handlers") {
+					handlerLoops++
+					loopOrder = append(loopOrder, "for:"+render(x.Init)+";"+render(x.Cond)+";"+render(x.Post))
+				}
+			}
+			return true
+		})
+		var scanOutside func(n ast.Node)
+		scanOutside = func(n ast.Node) {
+			ast.Inspect(n, func(m ast.Node) bool {
+				switch x := m.(type) {
+				case *ast.RangeStmt:
+					if render(x.X) == "acraCensor.handlers" {
+						return false // inside the handler loop: described by hqLoop
+					}
+				case *ast.TypeAssertExpr:
+					if x.Type != nil {
+						kindTestsOutside = append(kindTestsOutside, render(x.Type))
+					} else {
+						kindTestsOutside = append(kindTestsOutside, "type-switch")
+					}
+				case *ast.CallExpr:
+					if strings.Contains(render(x.Fun), "sort.") || strings.Contains(render(x.Fun), "reflect.") {
+						kindTestsOutside = append(kindTestsOutside, "call:"+render(x.Fun))
+					}
+				}
+				return true
+			})
+		}
+		scanOutside(fd.Body)
+		// a second loop over the handlers (the pre-pass) is not "inside the handler loop": report the kind tests of every loop but the last
+		seen := 0
+		ast.Inspect(fd.Body, func(n ast.Node) bool {
+			if x, ok := n.(*ast.RangeStmt); ok && render(x.X) == "acraCensor.handlers" {
+				seen++
+				if seen < handlerLoops {
+					ast.Inspect(x.Body, func(m ast.Node) bool {
+						if ta, ok := m.(*ast.TypeAssertExpr); ok && ta.Type != nil {
+							kindTestsOutside = append(kindTestsOutside, "pre-pass:"+render(ta.Type))
+						}
+						return true
+					})
+				}
+				return false
+			}
+			return true
+		})
+		lf.def("hqHandlerLoops", "Nat", fmt.Sprint(handlerLoops), implRel+": HandleQuery: number of loops over acraCensor.handlers")
+		lf.def("hqLoopOrder", "List String", strList(loopOrder), implRel+": HandleQuery: form of every loop over acraCensor.handlers (`range:<key>,<value>` walks the slice front to back)")
+		lf.def("hqKindTestsOutsideLoop", "List String", strList(kindTestsOutside), implRel+": HandleQuery: type assertions / type switches on a handler (and sort/reflect calls) outside the one handler loop, and inside every handler loop but the last (a pre-pass over a handler kind)")
 		lf.def("hqInactiveGuard", "Bool", boolStr(inactive), implRel+": HandleQuery starts with `if len(handlers) == 0 && unparsedQueriesWriter == nil { return nil }`")
 		lf.def("hqParseError", "String", fmt.Sprintf("%q", parseErr), implRel+": HandleQuery, branch `err == ErrQuerySyntaxError`: what happens with and without ignoreParseError")
 		lf.def("hqLoop", "List (String × String × String)", "["+strings.Join(loop, ", ")+"]", implRel+": HandleQuery, body of the handler loop in source order: (handler type or default, CheckQuery arguments / condition, outcome)")
